@@ -332,3 +332,24 @@ def sends_cancel_id(F, P, f, bb, t):
                 args = [P.operand(f, a, at=bb) for a in t['args']]
                 out.append(P.subst(term, c.id, args))
     return out
+
+
+def result_of(P, x, callterm):
+    """does term x denote (possibly among alternatives) the result of the call `callterm`, looking
+    through copies / conversions but without inlining the callee?"""
+    if x == callterm:
+        return True
+    if x[0] == 'phi':
+        return any(result_of(P, y, callterm) for y in x[1])
+    if x[0] in ('ref', 'deref'):
+        return result_of(P, x[1], callterm)
+    if x[0] == 'call':
+        name = P.call_name(x) or ''
+        if any(name == n or name.endswith('::' + n) for n in ('std::ops::Try::branch', 'std::convert::Into::into', 'std::convert::From::from')):
+            a = P.call_args(x)
+            return bool(a) and result_of(P, a[0], callterm)
+    return False
+
+
+def in_module(f, mod):
+    return f.id.startswith('tarpc::' + mod + '::') or f.id == 'tarpc::' + mod
